@@ -100,6 +100,16 @@ def d1_recovery_bound(ctx):
                 clamp_ok = ev.ev(args[2]) == T - Poly.const(1)
             detail = src(d.stmt)
             anchor = d.stmt
+    # form C: clamped in place - np.minimum(idx, T - 1, out=idx) / np.clip(idx, lo, T - 1, out=idx), before the read
+    if not clamp_ok:
+        for c in find(fi.node, ast.Call, nested=False):
+            if call_name(c) in ("minimum", "clip") and loc_name(kwarg(c, "out")) == idx and c.args and loc_name(c.args[0]) == idx \
+                    and du.cfg.must_pass([du.cfg.node_for(c)], du.cfg.node_for(use[0])):
+                hi = c.args[1] if call_name(c) == "minimum" and len(c.args) == 2 else (c.args[2] if call_name(c) == "clip" and len(c.args) == 3 else None)
+                if hi is not None:
+                    clamp_ok = ev.ev(hi) == T - Poly.const(1)
+                    detail = src(c)
+                    anchor = du.cfg.node_for(c).stmt
     ctx.check(clamp_ok, fi, use[0], detail, "every recovery index is < n_samples when the waveform is read",
               f"clamp `{detail}` does not map every index >= n_samples to n_samples - 1 (IndexError or a wrong recovery index when the trough sits within idx_from_trough samples of the end)", key="clamp")
     # the clamp precedes the read
@@ -498,6 +508,17 @@ def d5_indexing(ctx):
     ctx.rule("D5", "peak value read at [wav, time idx, trace idx]; peak trace on the third axis; swap rule peak_val > 0 and ratio <= 1.5")
     repo = ctx.repo
     fi = repo.fn(MOD + ".pick_maximum")
+    producers = {"pick_maximum"}
+    # the public function may validate its input and delegate to a private worker: return _worker(validated) - the worker is where the triple is built
+    for _ in range(2):
+        rets0 = returns_of(fi.node)
+        if len(rets0) == 1 and isinstance(rets0[0].value, ast.Call):
+            q_ = repo.resolve_call(fi, rets0[0].value)
+            if q_ and q_.startswith(MOD + ".") and q_ in repo.functions and q_ != fi.qualname:
+                fi = repo.functions[q_]
+                producers.add(q_.rsplit(".", 1)[-1])
+                continue
+        break
     du = DefUse(fi.node)
     vp = [d for d in du.defs if d.var == "val_peak" and d.kind == "assign"]
     ok = False
@@ -513,12 +534,26 @@ def d5_indexing(ctx):
     ctx.check(bool(rets) and [loc_name(e) for e in rets[-1].value.elts] == ["indx_trace", "indx_peak", "val_peak"], fi, rets[-1] if rets else fi.node, rets[-1] if rets else "return", "returns (trace, time, value)",
               "return order changed", key="ret")
     fp = repo.fn(MOD + ".find_peak")
-    un = [n for n in walk_function(fp.node) if isinstance(n, ast.Assign) and isinstance(n.value, ast.Call) and call_name(n.value) == "pick_maximum"]
+    un = [n for n in walk_function(fp.node) if isinstance(n, ast.Assign) and isinstance(n.value, ast.Call) and call_name(n.value) in producers]
     names = [loc_name(e) for e in un[0].targets[0].elts] if un and isinstance(un[0].targets[0], ast.Tuple) else []
     cols = {}
     for st in walk_function(fp.node):
         if isinstance(st, ast.Assign) and isinstance(st.targets[0], ast.Subscript) and isinstance(st.targets[0].slice, ast.Constant):
             cols[st.targets[0].slice.value] = loc_name(st.value)
+    if not un:
+        # the producer's statements written out in find_peak itself (worker inlined): the same structural check on its own definitions gives the (trace, time, value) names
+        dup = DefUse(fp.node)
+        vpp = [d for d in dup.defs if d.var == cols.get("peak_val") and d.kind == "assign"]
+        if vpp and isinstance(vpp[0].value, ast.Subscript) and isinstance(vpp[0].value.slice, ast.Tuple) and len(vpp[0].value.slice.elts) == 3:
+            a_, t_, tr_ = vpp[0].value.slice.elts
+            tdef_ = expand_name(dup, t_, vpp[0].stmt)
+            trdef_ = expand_name(dup, tr_, vpp[0].stmt)
+            mv_ = expand_name(dup, trdef_.args[0], vpp[0].stmt) if isinstance(trdef_, ast.Call) and trdef_.args else None
+            okp = "arange" in src(a_) and isinstance(tdef_, ast.Subscript) and isinstance(trdef_, ast.Call) and call_name(trdef_) == "argmax" \
+                and isinstance(mv_, ast.Call) and call_name(mv_) in ("max", "amax") and const_value(kwarg(mv_, "axis")) == (True, 1) \
+                and isinstance(tdef_.slice, ast.Tuple) and loc_name(tdef_.slice.elts[-1]) == loc_name(tr_)
+            if okp:
+                names = [loc_name(tr_), loc_name(t_), cols.get("peak_val")]
     ctx.check(len(names) == 3 and cols.get("peak_trace_idx") == names[0] and cols.get("peak_time_idx") == names[1] and cols.get("peak_val") == names[2], fp, un[0] if un else fp.node,
               f"{cols}", "data-frame columns receive (trace, time, value) in producer order", f"columns {cols} do not match the producer order {names}", key="cols")
     fg = repo.fn(MOD + ".get_array_peak")
